@@ -12,7 +12,19 @@ type Lexer struct {
 	line    int
 	column  int
 	atStart bool
+	// inHeader is set after the date that starts a transaction header; the rest of the line
+	// is then date2, status, code and free-text description, never amounts or accounts.
+	inHeader    bool
+	headerStage int
 }
+
+const (
+	headerAfterDate = iota
+	headerExpectDate2
+	headerAfterDate2
+	headerAfterStatus
+	headerInDescription
+)
 
 func NewLexer(input string) *Lexer {
 	return &Lexer{
@@ -48,7 +60,10 @@ func (l *Lexer) scanLineStart() Token {
 	}
 
 	if l.isDigit(l.peek()) {
-		return l.scanDate()
+		tok := l.scanDate()
+		l.inHeader = true
+		l.headerStage = headerAfterDate
+		return tok
 	}
 
 	if l.isLetter(l.peek()) {
@@ -58,7 +73,48 @@ func (l *Lexer) scanLineStart() Token {
 	return l.scanInLine()
 }
 
+// scanHeader scans the part of a transaction header that follows the date:
+// [=date2] [status] [(code)] description [| note] [; comment].
+func (l *Lexer) scanHeader() Token {
+	l.skipSpaces()
+
+	if l.pos >= len(l.input) {
+		return l.makeToken(TokenEOF, "")
+	}
+
+	ch := l.peek()
+	switch {
+	case ch == '\n':
+		return l.scanNewline()
+	case ch == ';':
+		return l.scanComment()
+	case ch == '|':
+		l.headerStage = headerInDescription
+		l.advance()
+		return l.makeToken(TokenPipe, "|")
+	case ch == '=' && l.headerStage == headerAfterDate:
+		l.headerStage = headerExpectDate2
+		return l.scanEquals()
+	case l.headerStage == headerExpectDate2 && l.isDigit(ch):
+		l.headerStage = headerAfterDate2
+		return l.scanDate()
+	case l.headerStage <= headerAfterDate2 && (ch == '*' || ch == '!'):
+		l.headerStage = headerAfterStatus
+		return l.scanStatus()
+	case l.headerStage <= headerAfterStatus && ch == '(':
+		l.headerStage = headerInDescription
+		return l.scanCode()
+	default:
+		l.headerStage = headerInDescription
+		return l.scanText()
+	}
+}
+
 func (l *Lexer) scanInLine() Token {
+	if l.inHeader {
+		return l.scanHeader()
+	}
+
 	l.skipSpaces()
 
 	if l.pos >= len(l.input) {
@@ -193,6 +249,7 @@ func (l *Lexer) scanNewline() Token {
 	l.line++
 	l.column = 1
 	l.atStart = true
+	l.inHeader = false
 	return Token{Type: TokenNewline, Value: "\n", Pos: startPos, End: l.position()}
 }
 
